@@ -56,8 +56,19 @@ def gen(rng, n, tier):
         if adaptive: ops = [(["empty"] if o[0] == "bare" else o) for o in ops]
         if nv and rng.random() < 0.12 and not adaptive:      # subtraction under free arithmetics may leave negative contents: last operation only
             ops.append(["subf", rng.randrange(nv), rng.randrange(nv)])
+        # impl-side spelling of an operation (the model sees the plain one): an empty histogram obtained as
+        # other.copy(include_frequencies=False), an integral value entered as numpy.int8, an array division done by
+        # HistogramCollection.normalize_bins
+        calls = []; seen = 0
+        for o in ops:
+            c = o[0]
+            if c == "empty" and seen > 0 and rng.random() < 0.6: c = "emptycopy:%d" % rng.randrange(seen)
+            elif c == "fill" and o[2].denominator == 1 and rng.random() < 0.7: c = "fill:int8"
+            elif c == "arr" and rng.random() < 0.5: c = "arr:normalize_bins"
+            if o[0] in ("new", "empty", "bare", "add", "copy", "sub", "subf"): seen += 1
+            calls.append(c)
         yield [["bucket", "len%d/%s%s" % (len(ops), "adaptive/" if adaptive else "", "+".join(sorted(set(o[0] for o in ops))))], ["ops", ops], ["eps", Fr(0)],
-               ["adaptive", "T" if adaptive else "F"]]
+               ["adaptive", "T" if adaptive else "F"], ["calls", calls]]
 
 def impl(case):
     import numpy as np, warnings, physt
@@ -73,9 +84,17 @@ def impl(case):
         return v, (w if wt == "T" else None)
     with warnings.catch_warnings():
         warnings.simplefilter("ignore")
-        for op in d["ops"]:
-            k = op[0]
-            if k == "new" and d.get("adaptive") == "T":
+        for op, call in zip(d["ops"], d.get("calls") or [o[0] for o in d["ops"]]):
+            k = op[0]; variant = call.partition(":")[2]
+            if k == "empty" and variant:
+                env.append(env[int(variant)].copy(include_frequencies=False)); x = len(env) - 1
+            elif k == "arr" and variant:
+                from physt.histogram_collection import HistogramCollection
+                x = op[1]
+                col = HistogramCollection(env[x], env[x].copy())
+                assert col.histograms[0] is env[x]
+                col.normalize_bins(inplace=True)
+            elif k == "new" and d.get("adaptive") == "T":
                 v, w = arrs(op[1], op[2])
                 env.append(physt.h1(v if len(v) else None, "fixed_width", bin_width=2, adaptive=True, weights=(w if len(v) else None))); x = len(env) - 1
             elif k == "empty" and d.get("adaptive") == "T":
@@ -85,7 +104,7 @@ def impl(case):
             elif k == "empty": env.append(Histogram1D(binning())); x = len(env) - 1
             elif k == "bare": env.append(Histogram1D(binning(), np.arange(len(edges) - 1))); x = len(env) - 1
             elif k == "fill":
-                x = op[1]; w = float(op[3]); env[x].fill(float(op[2]), w if w != 1 else 1)
+                x = op[1]; w = float(op[3]); env[x].fill(np.int8(int(op[2])) if variant else float(op[2]), w if w != 1 else 1)
             elif k == "fill_n":
                 x = op[1]; v, w = arrs(op[2], op[3]); env[x].fill_n(v, weights=w)
             elif k == "add": env.append(env[op[1]] + env[op[2]]); x = len(env) - 1
@@ -129,4 +148,4 @@ def nontrivial(case, obs):
 def shrink(case):
     d = sx.rec(case); ops = d["ops"]
     if len(ops) > 1:
-        d2 = dict(d); d2["ops"] = ops[:-1]; yield [[k, v] for k, v in d2.items()]
+        d2 = dict(d); d2["ops"] = ops[:-1]; d2["calls"] = (d.get("calls") or [o[0] for o in ops])[:-1]; yield [[k, v] for k, v in d2.items()]
